@@ -69,6 +69,8 @@ const (
 	regStamp
 	regMarkClosed
 	regLiveChildren
+	regCondAdd
+	regKeyOrd
 )
 
 var opNames = [...]string{
@@ -79,7 +81,7 @@ var opNames = [...]string{
 	OpSelect: "select", OpSpawn: "go", OpSleep: "sleep", OpPoolGet: "pool.Get", OpPoolPut: "pool.Put",
 	OpCondWait: "cond.Wait", OpCondSignal: "cond.Signal", OpCondBroadcast: "cond.Broadcast", opWake: "wake", OpDone: "done", OpGosched: "gosched",
 	regFirst: "", regParked: "parked", regTimerNew: "timer.new", regTimerStop: "timer.stop", regTimerReset: "timer.reset",
-	regNow: "now", regDraw: "draw", regNote: "note", regCount: "count", regStamp: "stamp", regMarkClosed: "mark-closed", regLiveChildren: "live-children",
+	regNow: "now", regDraw: "draw", regNote: "note", regCount: "count", regStamp: "stamp", regMarkClosed: "mark-closed", regLiveChildren: "live-children", regCondAdd: "cond-add", regKeyOrd: "key-ordinal",
 }
 
 func (k OpKind) String() string {
@@ -234,7 +236,17 @@ type object struct {
 	pending int   // rwmutex: announced writers
 	count   int64 // waitgroup
 	items   []any // pool
-	condq   []*stask
+	condq   []*condTicket
+}
+
+// condTicket is one Wait on a condition variable. As in the runtime, the waiter
+// joins the queue BEFORE it releases the lock (regCondAdd), so a Signal or
+// Broadcast issued between its Unlock and its going to sleep is not lost: it marks
+// the ticket, and the waiter then does not sleep at all.
+type condTicket struct {
+	t         *stask
+	signalled bool
+	parked    bool
 }
 
 type stimer struct {
@@ -284,13 +296,17 @@ type Outcome struct {
 	ReplayMiss     int
 	Preempts       int
 	PreemptsInCall int
+	// LastProgress is the last step at which something observable happened: a
+	// harness stamp (every call's invocation and return), a value accepted by or
+	// taken from a channel, a task finishing.
+	LastProgress int
 	// ClientsAlive counts the unfinished tasks that the harness started (root tasks
 	// and tasks spawned from harness code). Tasks spawned by the code under test that
 	// are still parked at the end - a pump or janitor goroutine of the implementation -
 	// are in Alive but not here: they are not callers waiting for anything.
 	ClientsAlive int
-	Nontrivial     bool   // set by harnesses whose notion of a non-trivial case is not a preemption
-	OpsHash        uint64 // set by sequential harnesses: hash of the operation history
+	Nontrivial   bool   // set by harnesses whose notion of a non-trivial case is not a preemption
+	OpsHash      uint64 // set by sequential harnesses: hash of the operation history
 }
 
 // Strategy selects how the next task is chosen.
@@ -389,6 +405,8 @@ type Sim struct {
 	drawPos  int
 	runLen   int
 	nLib     int // tasks spawned by the code under test
+	grace    int
+	keyOrd   map[unsafe.Pointer]int64 // insertion ordinals of map keys that have identity only
 	enBuf    []*stask
 }
 
@@ -625,21 +643,7 @@ func (s *Sim) pick(en []*stask) *stask {
 					s.lowPrio--
 				}
 			}
-			// PCT assumes tasks that terminate when run alone. One that waits by
-			// spinning (runtime.Gosched, or polling an atomic) does not: it yields its
-			// priority when it says so, and after 100 consecutive steps taken while
-			// others could have run, so that a legitimate spin-wait is not starved
-			// into a false no-progress report.
-			if chosen == s.last {
-				s.runLen++
-			} else {
-				s.runLen = 0
-			}
-			if len(en) > 1 && (chosen.req.kind == OpGosched || s.runLen >= 100) {
-				chosen.prio = s.lowPrio
-				s.lowPrio--
-				s.runLen = 0
-			}
+			s.yieldPriority(chosen, len(en))
 		case StratRoundRobin:
 			if lastEnabled {
 				chosen = s.last
@@ -660,6 +664,7 @@ func (s *Sim) pick(en []*stask) *stask {
 				}
 			}
 			chosen.prio = 1 + s.rng.Intn(1<<20)
+			s.yieldPriority(chosen, len(en))
 		}
 	}
 	if lastEnabled && chosen != s.last {
@@ -670,6 +675,28 @@ func (s *Sim) pick(en []*stask) *stask {
 	}
 	s.out.Sched = append(s.out.Sched, int32(chosen.id))
 	return chosen
+}
+
+// yieldPriority keeps the priority-based strategies (PCT, partial-order sampling)
+// fair to code that waits by spinning. Both assume tasks that terminate when run
+// alone; one that polls (runtime.Gosched in a loop, or re-reading an atomic) does
+// not, and a waiter that happens to hold the highest priority would starve the
+// task it is waiting for into a false no-progress report. So a task gives its
+// priority up when it says so (Gosched) and after 100 consecutive steps taken
+// while others could have run: it then runs again only when nobody else can, or,
+// under partial-order sampling, after another task's conflicting operation has
+// redrawn its priority.
+func (s *Sim) yieldPriority(chosen *stask, enabled int) {
+	if chosen == s.last {
+		s.runLen++
+	} else {
+		s.runLen = 0
+	}
+	if enabled > 1 && (chosen.req.kind == OpGosched || s.runLen >= 100) {
+		chosen.prio = s.lowPrio
+		s.lowPrio--
+		s.runLen = 0
+	}
 }
 
 func (s *Sim) trace(format string, a ...any) {
@@ -689,11 +716,23 @@ func (s *Sim) Run() *Outcome {
 			s.out.Truncated = true
 			break
 		}
-		if s.cfg.StopWhenClientsDone && s.nLib > 0 && s.clientsDone() {
-			s.count("probe.run_ended_with_library_goroutines_alive", 1)
-			break
+		daemonsOnly := s.cfg.StopWhenClientsDone && s.nLib > 0 && s.clientsDone()
+		if daemonsOnly {
+			// every caller has returned: goroutines of the implementation itself may
+			// finish what they are doing (2000 steps of grace), but the run does not
+			// wait for their timers or for a loop that never ends
+			s.grace++
 		}
 		en := s.enabled()
+		if daemonsOnly && (len(en) == 0 || s.grace > 2000) {
+			for _, t := range s.tasks {
+				if t.state != stDone {
+					s.count("probe.run_ended_with_library_goroutines_alive", 1)
+					break
+				}
+			}
+			break
+		}
 		if len(en) == 0 {
 			if !s.advanceClock() {
 				break
@@ -739,10 +778,32 @@ func (s *Sim) Run() *Outcome {
 	}
 	setCur(nil)
 	s.wg.Wait()
+	s.resetLocks()
 	s.out.Steps = s.step
 	s.out.Hash = s.hash
 	s.out.SimNanos = s.now
 	return &s.out
+}
+
+// resetLocks returns every mutex and read-write mutex this run touched to its
+// unlocked state. A task that was unwound between a Lock and a non-deferred Unlock
+// leaves the real primitive held; when it lives in a package-level variable of the
+// code under test the next run of the same process would meet a lock that its
+// fresh model believes free (reported as model divergence, exit 2). All tasks have
+// been joined, so nobody uses the primitives any more. ssync.Mutex and
+// ssync.RWMutex are structs whose first and only field is the real primitive.
+func (s *Sim) resetLocks() {
+	if len(s.out.Alive) == 0 {
+		return // every task ran to completion: whatever is still locked was left locked by the program itself
+	}
+	for p, o := range s.objs {
+		switch o.kind {
+		case objMutex:
+			*(*sync.Mutex)(p) = sync.Mutex{}
+		case objRW:
+			*(*sync.RWMutex)(p) = sync.RWMutex{}
+		}
+	}
 }
 
 func (s *Sim) abort(t *stask) {
@@ -781,6 +842,7 @@ func (s *Sim) resumeTask(t *stask, r resume) {
 		if req.kind == OpDone {
 			t.state = stDone
 			t.req = request{kind: OpDone}
+			s.out.LastProgress = s.step
 			if req.str != "" {
 				if strings.HasPrefix(req.str, unsupportedPrefix) {
 					s.out.Unsupported = req.str
@@ -954,7 +1016,25 @@ func (s *Sim) exec(t *stask) {
 	case OpCondWait:
 		o := s.obj(r.obj, objCond)
 		oid = o.id
-		o.condq = append(o.condq, t)
+		var tk *condTicket
+		for i, c := range o.condq {
+			if c.t == t {
+				tk = c
+				if c.signalled { // notified between our Unlock and now: do not sleep
+					o.condq = append(o.condq[:i:i], o.condq[i+1:]...)
+				}
+				break
+			}
+		}
+		if tk == nil { // Wait without the registration step (not produced by ssync)
+			tk = &condTicket{t: t}
+			o.condq = append(o.condq, tk)
+		}
+		if tk.signalled {
+			s.count("probe.cond_notified_before_sleeping", 1)
+			break
+		}
+		tk.parked = true
 		s.mix(uint64(t.id), uint64(r.kind), uint64(oid))
 		s.trace("t%d %s #%d parks", t.id, r.kind, oid)
 		t.parkedOn = fmt.Sprintf("cond#%d", oid)
@@ -963,20 +1043,32 @@ func (s *Sim) exec(t *stask) {
 	case OpCondSignal:
 		o := s.obj(r.obj, objCond)
 		oid = o.id
-		if len(o.condq) > 0 {
-			w := o.condq[0]
-			o.condq = o.condq[1:]
-			w.state = stWoken
-			w.reply = resume{how: howDone}
+		for i, c := range o.condq {
+			if c.signalled {
+				continue
+			}
+			c.signalled = true
+			if c.parked {
+				o.condq = append(o.condq[:i:i], o.condq[i+1:]...)
+				c.t.state = stWoken
+				c.t.reply = resume{how: howDone}
+			}
+			break
 		}
 	case OpCondBroadcast:
 		o := s.obj(r.obj, objCond)
 		oid = o.id
-		for _, w := range o.condq {
-			w.state = stWoken
-			w.reply = resume{how: howDone}
+		var keep []*condTicket
+		for _, c := range o.condq {
+			c.signalled = true
+			if c.parked {
+				c.t.state = stWoken
+				c.t.reply = resume{how: howDone}
+			} else {
+				keep = append(keep, c) // consumed when its task reaches the Wait step
+			}
 		}
-		o.condq = nil
+		o.condq = keep
 	case OpSend, OpRecv:
 		c := s.chanOf(r.obj, r.chlen, r.chcap)
 		if c != nil {
@@ -1165,6 +1257,7 @@ func (s *Sim) trySend(c *chanModel) (bool, resume) {
 		return true, resume{how: howReal}
 	}
 	if len(c.recvq) > 0 {
+		s.out.LastProgress = s.step
 		s.count("probe.send_meets_parked_receiver", 1)
 		w := c.recvq[0]
 		box := w.box
@@ -1172,6 +1265,7 @@ func (s *Sim) trySend(c *chanModel) (bool, resume) {
 		return true, resume{how: howGive, box: box}
 	}
 	if c.len < c.cap {
+		s.out.LastProgress = s.step
 		c.len++
 		return true, resume{how: howReal}
 	}
@@ -1183,6 +1277,7 @@ func (s *Sim) tryRecv(c *chanModel) (bool, resume) {
 		return false, resume{}
 	}
 	if c.len > 0 {
+		s.out.LastProgress = s.step
 		c.len--
 		rep := resume{how: howReal}
 		if len(c.sendq) > 0 {
@@ -1198,6 +1293,7 @@ func (s *Sim) tryRecv(c *chanModel) (bool, resume) {
 		return true, resume{how: howReal}
 	}
 	if len(c.sendq) > 0 {
+		s.out.LastProgress = s.step
 		s.count("probe.recv_meets_parked_sender", 1)
 		w := c.sendq[0]
 		box := w.box
@@ -1224,6 +1320,7 @@ func (s *Sim) register(t *stask, r *request) resume {
 		s.count(r.str, r.n)
 		return resume{}
 	case regStamp:
+		s.out.LastProgress = s.step // harnesses stamp the invocation and the return of every call
 		return resume{n: int64(s.step)}
 	case regLiveChildren:
 		// children of t spawned since step r.n that have not finished; with
@@ -1247,6 +1344,20 @@ func (s *Sim) register(t *stask, r *request) resume {
 		if c := s.chanOf(r.obj, r.chlen, r.chcap); c != nil {
 			c.closed = true
 		}
+		return resume{}
+	case regKeyOrd:
+		if s.keyOrd == nil {
+			s.keyOrd = map[unsafe.Pointer]int64{}
+		}
+		n, seen := s.keyOrd[r.obj]
+		if !seen {
+			n = int64(len(s.keyOrd) + 1)
+			s.keyOrd[r.obj] = n
+		}
+		return resume{n: n, ok: !seen}
+	case regCondAdd:
+		o := s.obj(r.obj, objCond)
+		o.condq = append(o.condq, &condTicket{t: t})
 		return resume{}
 	case regTimerNew:
 		s.ntimer++
@@ -1530,6 +1641,17 @@ func Go(fn func()) {
 }
 
 func (s *Sim) wgAdd() { s.wg.Add(1) }
+
+// CondAdd puts the current task on the wait queue of the condition variable at
+// obj. sync.Cond.Wait does this before it unlocks; ssync.Cond.Wait calls it at the
+// same place.
+func CondAdd(obj unsafe.Pointer) {
+	t := current()
+	if t == nil || t.aborting {
+		return
+	}
+	t.call(request{kind: regCondAdd, obj: obj})
+}
 
 // Gosched stands in for runtime.Gosched in the rewritten code under test: one
 // step at which the strategies prefer to run somebody else.
